@@ -298,6 +298,16 @@ func (e *Eng) iterate(fr *Frame, c *ssa.CallCommon, kind, t string, clo *Val, in
 	stopped := e.sc.havoc("it_stopped", "Bool")
 	items := sel(e.get(st, btItems, e.regionSort[btItems]), t)
 	e.sc.assume(fmt.Sprintf("(forall ((p Int)) (! (=> (select %s p) (and (select %s p) %s)) :pattern ((select %s p))))", visited, items, inRange("p", st), visited), "iteration model: only items of the range are visited")
+	// order: Ascend* call back in ascending, Descend* in descending order of Less: what has been visited is closed
+	// under "comes earlier in the iteration", and the next item is the earliest unvisited one of the range
+	earlier := func(a, b string, s *State) string {
+		if strings.HasPrefix(kind, "Descend") {
+			return e.btPure("btreeLess", b, a, s)
+		}
+		return e.btPure("btreeLess", a, b, s)
+	}
+	e.sc.assume(fmt.Sprintf("(forall ((p Int) (r Int)) (! (=> (and (select %s p) (select %s r) %s (select %s r) %s) (select %s p)) :pattern ((select %s r) (select %s p))))",
+		items, items, inRange("p", st), visited, earlier("p", "r", st), visited, visited, items), "iteration model: items are visited in the order of Less")
 	for i, tm := range evalInvs(st, visited, stopped) {
 		e.sc.assume(implies(g, tm), "iteration invariant "+invs[i].Clause.Label)
 	}
@@ -305,7 +315,8 @@ func (e *Eng) iterate(fr *Frame, c *ssa.CallCommon, kind, t string, clo *Val, in
 	if len(e.inlineStack) < e.maxInline+2 {
 		st2 := st.clone()
 		p := e.sc.havoc("it_item", "Int")
-		gi := and(g, not(stopped), sel(items, p), not(sel(visited, p)), inRange(p, st2))
+		gi := and(g, not(stopped), sel(items, p), not(sel(visited, p)), inRange(p, st2),
+			fmt.Sprintf("(forall ((r Int)) (! (=> (and (select %s r) %s (not (select %s r))) (not %s)) :pattern ((select %s r))))", items, inRange("r", st2), visited, earlier("r", p, st2), items))
 		arg := e.btBox(p, "it_item")
 		e.inlineStack = append(e.inlineStack, fn)
 		e.sc.comment("callback " + fnKey(fn))
